@@ -75,12 +75,12 @@ NetPositivePart ==
 (* share their denominator, so the sum is formed gap by gap (BRAdd adds numerators there) and *)
 (* the few gap sums are added at the end                                                      *)
 RangeSum(x, lo, hi) == IF lo > hi THEN BRZero
-                       ELSE FoldLeft(LAMBDA acc, i : BRAdd(acc, x[i]), BRZero, V([i \in 1..(hi - lo + 1) |-> lo + i - 1]))
+                       ELSE FoldLeft(LAMBDA acc, y : BRAdd(acc, y), BRZero, SubSeq(x, lo, hi))
 GapBounds == LET z == Sorted(src \cup snk) IN <<0>> \o z \o <<N + 1>>
 SumOverStates(x) ==
   LET gb == GapBounds
-  IN FoldLeft(LAMBDA acc, k : BRAdd(acc, RangeSum(x, gb[k] + 1, gb[k + 1] - 1)), BRZero,
-              V([k \in 1..(Len(gb) - 1) |-> k]))
+      gs == V([k \in 1..(Len(gb) - 1) |-> RangeSum(x, gb[k] + 1, gb[k + 1] - 1)])
+  IN FoldLeft(LAMBDA acc, y : BRAdd(acc, y), BRZero, gs)
 (* (absorbing states have q+ q- = 0 and are left out of the sum) *)
 
 Densities(p) == V([i \in Idx |-> BRMul(p[i], BRMul(q[i], qm[i]))])
